@@ -675,7 +675,9 @@ def handleConformText (args : List Bytes) : String :=
 `mdsort <now> <pid> <host> <random> <tmpdir> <home> <confpath> <hex of the block lines>` (a maildir-mode run of `Model.mainP`) or
 `client <op>;<op>...` with `<op>` = `rename,<dir>,<name>,<dir>,<name>` | `unlink,<dir>,<name>` (`Model.clientProg`).
 `<schedule>`: words `i:n` (party `i` issues its next `n` calls, fewer if it finishes) or `i:*` (until it has finished).
-Answer: `OK ST <error flag per party, - = not finished> FS <dump> TR <trace of party 0>|<trace of party 1>...`. -/
+Answer: `OK ST <error flag per party, - = not finished> FS <dump> TR <trace of party 0>|<trace of party 1>... EV <n0>,<n1>...`
+(`EV`: per party, how many successful `unlinkat` calls removed a name that was bound to ANOTHER file than the one the party had
+opened under that name - read from the history, used to tell the listed finding F31 from other losses). -/
 def handleParties (args : List Bytes) : String :=
   match args with
   | [filesB, devsB, partiesB, schedB] =>
@@ -753,8 +755,8 @@ def handleParties (args : List Bytes) : String :=
         let xs0 : List Driver.Sched.PX := ps.map fun x => { inst := x.2.2, view := files, opened := [], acc := [] }
         match Driver.Sched.run s0 xs0 sched with
         | .error e => e
-        | .ok (s, _) =>
-          s!"OK ST {String.intercalate "," (s.parties.map Driver.Sched.statusStr)} FS {fsDump s.fs} TR {String.intercalate "|" (s.parties.map fun p => Driver.Sched.traceStr p.trace)}"
+        | .ok (s, xs) =>
+          s!"OK ST {String.intercalate "," (s.parties.map Driver.Sched.statusStr)} FS {fsDump s.fs} TR {String.intercalate "|" (s.parties.map fun p => Driver.Sched.traceStr p.trace)} EV {String.intercalate "," (xs.map fun x => toString x.stale)}"
       | _, _ => "BADSCENARIO"
   | _ => "BADOP"
 
